@@ -164,7 +164,9 @@ def sliceUnsafeOK (r : Rope) (a b : Nat) : Bool :=
 def endsWith (r : Rope) (c : UInt8) : Bool :=
   match r with
   | .light s => s.getLast? == some c
-  | .full ps => match ps.getLast? with | some (l, _) => l.getLast? == some c | none => false
+  | .full ps =>
+    -- the last piece that has text (fix F13: trailing empty pieces are skipped)
+    match ps.reverse.find? (fun p => !p.1.isEmpty) with | some (l, _) => l.getLast? == some c | none => false
 
 def toBytes (r : Rope) : Text := r.render
 
@@ -273,8 +275,91 @@ def charIndices : Rope → List (Nat × Nat)
 
 /-! ### `lines` / `lines_impl` -/
 
-/-! The `Lines` iterator is modelled at the text level only (what every item renders to); the
-piece structure of the yielded ropes is not modelled. The tie is the correspondence check. -/
+/-! ### `Lines` iterator (rope.rs:546-735), state machine -/
+
+/-- offset (relative to `from_`) of the first line break in `t[from_..]` (`memchr`) -/
+def findNL (t : Text) (from_ : Nat) : Option Nat := (t.drop from_).idxOf? NL
+
+structure LSt where
+  byteIdx : Nat := 0
+  chunkIdx : Nat := 0
+  inChunk : Nat := 0
+  ended : Bool := false
+deriving Repr
+
+/-- the `loop` looking for the end of the line: returns `(end_chunk_idx, end_in_chunk_byte_idx)` -/
+def scanNL (chunks : List (Text × Nat)) : Nat → Nat → Nat → Option (Nat × Nat)
+  | 0, _, _ => none
+  | fuel + 1, ci, ic =>
+    match chunks[ci]? with
+    | none => none
+    | some (c, _) =>
+      match findNL c ic with
+      | some idx => some (ci, ic + idx + 1)
+      | none => scanNL chunks fuel (ci + 1) 0
+
+/-- pieces `[k0 ..= k1]` of a line spanning several chunks -/
+def linePieces (chunks : List (Text × Nat)) (k0 start k1 : Nat) (stop : Option Nat) : Nat → Nat → Nat → List (Text × Nat)
+  | 0, _, _ => []
+  | n + 1, i, l =>
+    match chunks[i]? with
+    | none => []
+    | some (c, _) =>
+      let piece := if i = k0 then c.drop start else if i = k1 then (match stop with | some e => c.take e | none => c) else c
+      (piece, l) :: linePieces chunks k0 start k1 stop n (i + 1) (l + piece.length)
+
+/-- one call of `Lines::next` on a `Full` rope -/
+def linesNextFull (chunks : List (Text × Nat)) (total : Nat) (trailing : Bool) : Nat → LSt → Option (Rope × LSt)
+  | 0, _ => none
+  | fuel + 1, s =>
+    if s.ended then none
+    else if s.byteIdx = total then (if trailing then some (.light [], { s with ended := true }) else none)
+    else if chunks.isEmpty then none
+    else
+      let c := (chunks.getD s.chunkIdx ([], 0)).1
+      if s.inChunk = c.length ∧ s.chunkIdx < chunks.length - 1 then
+        linesNextFull chunks total trailing fuel { s with chunkIdx := s.chunkIdx + 1, inChunk := 0 }
+      else
+        match scanNL chunks (chunks.length + 1) s.chunkIdx s.inChunk with
+        | some (ei, ein) =>
+          if s.chunkIdx = ei then
+            some (.light (bsub c s.inChunk ein), { s with byteIdx := s.byteIdx + (ein - s.inChunk), inChunk := ein })
+          else
+            let raw := linePieces chunks s.chunkIdx s.inChunk ei (some ein) (ei + 1 - s.chunkIdx) s.chunkIdx 0
+            let len := (raw.map (·.1.length)).sum
+            some (.full raw, { s with byteIdx := s.byteIdx + len, chunkIdx := ei, inChunk := ein })
+        | none =>
+          if chunks.length - s.chunkIdx = 1 then
+            some (.light (c.drop s.inChunk), { s with byteIdx := s.byteIdx + (c.length - s.inChunk), ended := true })
+          else
+            let raw := linePieces chunks s.chunkIdx s.inChunk chunks.length none (chunks.length - s.chunkIdx) s.chunkIdx 0
+            let len := (raw.map (·.1.length)).sum
+            some (.full raw, { s with byteIdx := s.byteIdx + len, ended := true })
+
+def linesCollectFull (chunks : List (Text × Nat)) (total : Nat) (trailing : Bool) : Nat → LSt → List Rope
+  | 0, _ => []
+  | fuel + 1, s =>
+    match linesNextFull chunks total trailing (chunks.length + 2) s with
+    | none => []
+    | some (r, s') => r :: linesCollectFull chunks total trailing fuel s'
+
+/-- `Lines::next` on a `Light` rope, collected -/
+def linesCollectLight (s : Text) (trailing : Bool) : Nat → Nat → Bool → List Rope
+  | 0, _, _ => []
+  | fuel + 1, byteIdx, ended =>
+    if ended then []
+    else if byteIdx = s.length then (if trailing then [.light []] else [])
+    else match findNL s byteIdx with
+      | some idx => .light (bsub s byteIdx (byteIdx + idx + 1)) :: linesCollectLight s trailing fuel (byteIdx + idx + 1) false
+      | none => [.light (s.drop byteIdx)]
+
+/-- every item yielded by `lines_impl(trailing)`, as ropes with their piece structure -/
+def linesR (r : Rope) (trailing : Bool) : List Rope :=
+  match r with
+  | .light s => linesCollectLight s trailing (s.length + 2) 0 false
+  | .full ps => linesCollectFull ps (endOf ps) trailing (endOf ps + ps.length + 2) {}
+
+/-! text-level view of `lines`: what the items render to -/
 /-- text of every item yielded by `lines_impl(flag)` -/
 def lines (r : Rope) (trailing : Bool) : List Text :=
   let t := r.render
